@@ -239,7 +239,8 @@ def c17_runs(chk, w, tier):
 CHECKS = {
     "C01": simple_seq_check("C01", [("base", "allimpacted", 6, 300, 600, []), ("base", "allimpacted", 7, 120, 300, []), ("base", "allimpacted", 8, 150, 400, []), ("base", "reconv", 8, 60, 200, [])]),
     "C14": simple_seq_check("C14", [("primal", "allimpacted", 6, 200, 500, []), ("primal", "allimpacted", 7, 60, 200, [])], "; warm starts: the oracle's optimal and worst feasible witness solutions, alone, in both orders, and the same value twice with different solutions"),
-    "C19": simple_seq_check("C19", [("cutoff", "allimpacted", 6, 120, 300, []), ("cutoff", "allimpacted", 7, 50, 150, []), ("cutoff", "knapsack", 9, 60, 200, []), ("cutoff", "setpack", 9, 20, 80, [])], "; cutoff series: the run repeated with the cutoff firing at every poll index k = 1..K+1, consecutive outcomes compared"),
+    "C19": simple_seq_check("C19", [("cutoff", "allimpacted", 6, 120, 300, []), ("cutoff", "allimpacted", 7, 50, 150, []), ("cutoff", "knapsack", 9, 60, 200, []), ("cutoff", "setpack", 9, 20, 80, []),
+                                    ("cutoff", "reconv", 8, 80, 250, ["--cfg", json.dumps({"fringe": "nodup", "width": 1})]), ("cutoff", "knapsack", 8, 60, 200, ["--cfg", json.dumps({"fringe": "nodup"})])], "; cutoff series: the run repeated with the cutoff firing at every poll index k = 1..K+1, consecutive outcomes compared"),
     "C09": simple_seq_check("C09", [("cache", "allimpacted", 6, 300, 700, []), ("cache", "allimpacted", 7, 120, 300, []), ("cache", "allimpacted", 8, 30, 100, [])],
                             "; each configuration is run without and with the threshold cache (and with cache + dominance): outcomes compared, and the route monitor C09_RouteExists "
                             "(some optimal solution stays reachable through an open node that neither its bound nor a threshold discards) is evaluated by TLC at every pop"),
